@@ -73,7 +73,8 @@ def get_path(doc, path):
 
 def run(ctx):
     ctx.proof_step(PROPS_FILE)
-    sysm = systematic()
+    from vlib.pairwise import pairwise
+    sysm = systematic() + [r for _, r in pairwise(only={"enum"})]
     n = 20 if ctx.tier == "quick" else 300
     cases = build_cases(ctx, len(sysm) + n, ["enum"], CLASSES | {"type"}, "c08x", extra_schemas=sysm, docs_per=2 if ctx.tier == "quick" else 3)
     run_cases(ctx, cases, "c08")
